@@ -3,7 +3,9 @@ package checks
 import (
 	"context"
 	"fmt"
+	"github.com/lightninglabs/lightning-node-connect/mailbox"
 	"math/rand"
+	"net"
 	"sync"
 	"sync/atomic"
 	"testing"
@@ -21,7 +23,7 @@ func TestC13(t *testing.T) {
 	mon.Main(t, mon.Check{
 		ID:    "C13",
 		Level: "exploration",
-		Rule:  "real gbn code in virtual time, keepalive on. (D) dead peer: after some acknowledged traffic the transport goes silent (incoming link blackholed, or both) at an instant swept over offsets 0..2*ping after the last activity and over exact multiples of the ping interval; at that instant the application queues k in {0,1,N-1,N,N+5} messages; a small real-time slice repeats the dead-peer case with a slow transport (every write takes 0.8 ping intervals, in half of the cases first with a live peer whose acknowledgements arrive while ticks are pending, so the send loop is hardly ever parked when a keepalive timer fires; it cannot run in a bubble because Close then waits for a write while other goroutines wait on its sync.Once); ping/pong in {(5s,3s),(7s,3s),(1s,1s),(100ms,50ms),(30s,10s),(1s,3s)}, N in {1,3,20,254}, static and adaptive timeouts. Oracle: the endpoint closes itself within ping+pong+10*resendTimeout(at closure)+1s of the silence instant, and its blocked callers return. (B) a few real-time cases in which the peer dies while the endpoint is sending over a transport with backpressure (the relay's mailbox is a pipe: the write that follows blocks), same oracle. (H) healthy idle: both ends keepalive (mailbox's 7s/3s vs 5s/3s and others), round-trip time in {0, pong/2, pong-20ms}, 1-24 h of virtual idleness, a third of them with the ACK of a keepalive ping lost now and then (the resent ping is answered by a NACK within the pong timeout); oracle: no endpoint closes and ping packets were seen on the wire. One case in nineteen is a healthy-idle case of the edge family N=1, static 1 s resend, both ends pinging every 1 s with a 3 s pong timeout over a 2.98 s round trip, 24 h (pings always outstanding, ticks coinciding with arrivals). A case whose bubble freezes (a goroutine waits on a mutex, which stops the virtual clock) is repeated on the real clock when its bound is below 100 s and judged there. A third of the cases run over links whose Send/Recv calls take a PRNG-chosen 1 ns .. 200 µs (schedule perturbation around coinciding timer expiries and arrivals). Non-trivial = silence was injected while the connection was open / pings observed; distinct = (kind, ping, pong, N, backlog class, one/two-sided, timeout mode, offset bucket).",
+		Rule:  "real gbn code in virtual time, keepalive on. (D) dead peer: after some acknowledged traffic the transport goes silent (incoming link blackholed, or both) at an instant swept over offsets 0..2*ping after the last activity and over exact multiples of the ping interval; at that instant the application queues k in {0,1,N-1,N,N+5} messages; a small real-time slice repeats the dead-peer case with a slow transport (every write takes 0.8 ping intervals, in half of the cases first with a live peer whose acknowledgements arrive while ticks are pending, so the send loop is hardly ever parked when a keepalive timer fires; it cannot run in a bubble because Close then waits for a write while other goroutines wait on its sync.Once); ping/pong in {(5s,3s),(7s,3s),(1s,1s),(100ms,50ms),(30s,10s),(1s,3s)}, N in {1,3,20,254}, static and adaptive timeouts. Oracle: the endpoint closes itself within ping+pong+10*resendTimeout(at closure)+1s of the silence instant, and its blocked callers return. (B) a few real-time cases in which the peer dies while the endpoint is sending over a transport with backpressure (the relay's mailbox is a pipe: the write that follows blocks), same oracle; (M) the same one layer up: a paired mailbox session over a relay whose mailboxes hold four messages, client or server uploading when the other dies, bound ping+pong+15 s. (H) healthy idle: both ends keepalive (mailbox's 7s/3s vs 5s/3s and others), round-trip time in {0, pong/2, pong-20ms}, 1-24 h of virtual idleness, a third of them with the ACK of a keepalive ping lost now and then (the resent ping is answered by a NACK within the pong timeout); oracle: no endpoint closes and ping packets were seen on the wire. One case in nineteen is a healthy-idle case of the edge family N=1, static 1 s resend, both ends pinging every 1 s with a 3 s pong timeout over a 2.98 s round trip, 24 h (pings always outstanding, ticks coinciding with arrivals). A case whose bubble freezes (a goroutine waits on a mutex, which stops the virtual clock) is repeated on the real clock when its bound is below 100 s and judged there. A third of the cases run over links whose Send/Recv calls take a PRNG-chosen 1 ns .. 200 µs (schedule perturbation around coinciding timer expiries and arrivals). Non-trivial = silence was injected while the connection was open / pings observed; distinct = (kind, ping, pong, N, backlog class, one/two-sided, timeout mode, offset bucket).",
 		Assumptions: []string{
 			"detection bound uses the connection's own (possibly boosted) resend timeout read through the hook: the send loop may sit in the resend sync wait (3x resend timeout) when the timers fire",
 		},
@@ -221,7 +223,102 @@ func runC13Backpressure(c *mon.Case) {
 	c.Shard.Eval(fmt.Sprintf("B|%v|%d", k.ping, n))
 }
 
+// runC13MailboxDeadPeer: the same situation one layer up, on the real clock: a
+// paired mailbox session (real Server/Client, GBN with the mailbox's keepalive
+// of 7 s/3 s on the client and 5 s/3 s on the server) over a relay whose
+// mailboxes hold four messages, one party uploading; then the other party dies
+// (it reads nothing any more and everything it sends is lost). The uploader's
+// connection must close within ping + pong + 15 s.
+func runC13MailboxDeadPeer(c *mon.Case) {
+	rng := rand.New(rand.NewSource(c.Seed))
+	pass := eng.Entropy(rng)
+	relay := sim.NewRelay()
+	relay.KeepMsg, relay.KeepLog = false, false
+	relay.Cap = 4
+	s := eng.NewMboxParty(eng.NewKey(rng), nil, pass, []byte("auth"), 0, 2)
+	cl := eng.NewMboxParty(eng.NewKey(rng), nil, pass, nil, 0, 2)
+	sid, _ := cl.CD.SID()
+	c2s, s2c := sidHex(mailbox.GetSID(sid, false)), sidHex(mailbox.GetSID(sid, true))
+	serverDies := rng.Intn(2) == 0
+	var dead atomic.Bool
+	relay.Fault = func(op sim.RelayOp) sim.RelayAction {
+		if dead.Load() && op.Kind == "send" && ((serverDies && op.Stream == s2c) || (!serverDies && op.Stream == c2s)) {
+			return sim.RelayAction{Drop: true}
+		}
+		return sim.RelayAction{}
+	}
+	m, err := eng.NewMboxSession(relay, s, cl)
+	if err != nil {
+		c.Shard.Inconc("mailbox dead-peer session: " + err.Error())
+		return
+	}
+	m.StartServer()
+	m.StartClient()
+	defer m.Stop()
+	var sc, cc net.Conn
+	deadline := time.After(60 * time.Second)
+	for sc == nil || cc == nil {
+		select {
+		case sc = <-m.SConns:
+		case cc = <-m.CConns:
+		case <-deadline:
+			c.Shard.Inconc("mailbox dead-peer session: no paired connection within 60 s")
+			return
+		}
+	}
+	up, down := cc, sc // the uploader and the party that dies
+	if !serverDies {
+		up, down = sc, cc
+	}
+	go func() {
+		b := make([]byte, 65536)
+		for {
+			if _, err := down.Read(b); err != nil {
+				return
+			}
+		}
+	}()
+	readDone := make(chan error, 1)
+	go func() { _, err := up.Read(make([]byte, 64)); readDone <- err }()
+	go func() {
+		for i := 0; i < 4000; i++ {
+			if _, err := up.Write(eng.StreamBytes('z', i*32768, 32768)); err != nil {
+				return
+			}
+		}
+	}()
+	time.Sleep(time.Duration(500+rng.Intn(1000)) * time.Millisecond)
+	t0 := time.Now()
+	dead.Store(true)
+	if serverDies {
+		relay.FreezeReads(c2s, true)
+	} else {
+		relay.FreezeReads(s2c, true)
+	}
+	bound := 7*time.Second + 3*time.Second + 15*time.Second
+	who := map[bool]string{true: "client", false: "server"}[serverDies]
+	rep := map[string]any{"kind": "M", "uploader": who, "relay_capacity": relay.Cap, "bound": bound.String()}
+	select {
+	case <-readDone:
+		c.Shard.Max("max_detection_mailbox_backpressure_ms", time.Since(t0).Milliseconds())
+	case <-time.After(bound):
+		c.Shard.Violate("dead-peer-undetected|mailbox-backpressure",
+			fmt.Sprintf("mailbox session over a relay that holds %d messages per mailbox: the peer of the uploading %s died (reads nothing, sends nothing); %v later the %s's connection is still open and its Read has not returned", relay.Cap, who, bound, who), rep)
+		// a connection in that state may not be closable either: end the
+		// worker here instead of hanging in the clean-up
+		mon.FlushAndExit(c.Shard)
+	}
+	_ = up.Close()
+	_ = down.Close()
+	c.Shard.Count("mailbox_backpressure_cases", 1)
+	c.Shard.Eval("M|" + who)
+}
+
 func runC13(c *mon.Case) {
+	if c.Idx%400 == 111 {
+		runC13MailboxDeadPeer(c)
+		return
+	}
 	if c.Idx%150 == 37 {
 		runC13Backpressure(c)
 		return
